@@ -45,3 +45,29 @@ pub fn c12_native_keep_better_at_index() {
     }
     println!("c12_native_keep_better_at_index: {} population pairs checked", n);
 }
+
+// BOUNDED STAND-IN (not a proof) for `RandomReplacement::replace` on the real `rand` shuffle (the Verus unit `simple_ops` proves the
+// kernel against the ASSUMED meaning of `shuffle`: some permutation; a Kani harness cannot unwind rand's rejection-sampling loop):
+// "mu random ones": min(mu, total) individuals, each taken from parents ++ offspring at most as often as it occurred there.
+// @native-harness
+pub fn c12_native_random_replacement() {
+    use crate::components::replacement::RandomReplacement;
+    let mut n = 0u64;
+    for np in 0..=3usize { for no in 0..=3usize { for mu in 0..=7u32 { for seed in 0..16u64 {
+        let parents: Vec<I> = (0..np).map(|i| ind(1 + i as u8, i as f64)).collect();
+        let offspring: Vec<I> = (0..no).map(|i| ind(101 + i as u8, 10.0 + i as f64)).collect();
+        let all: Vec<u8> = parents.iter().chain(&offspring).map(|i| *i.solution()).collect();
+        let mut rng = Random::new(seed);
+        let res = <RandomReplacement as Replacement<ScalarProblem>>::replace(&RandomReplacement::from_params(mu), parents, offspring, &mut rng).expect("RandomReplacement must not fail");
+        let tags: Vec<u8> = res.iter().map(|i| *i.solution()).collect();
+        let want = (mu as usize).min(np + no);
+        let mut sorted = tags.clone(); sorted.sort_unstable(); sorted.dedup();
+        if tags.len() != want || sorted.len() != tags.len() || tags.iter().any(|t| !all.contains(t))
+            || res.iter().any(|i| i.objective().value() != if *i.solution() > 100 { 10.0 + (*i.solution() - 101) as f64 } else { (*i.solution() - 1) as f64 }) {
+            eprintln!("COUNTEREXAMPLE parents={np} offspring={no} mu={mu} seed={seed}: kept tags {tags:?} out of {all:?}");
+            panic!("RandomReplacement: not min(mu, total) distinct members of parents ++ offspring with their objective values");
+        }
+        n += 1;
+    }}}}
+    println!("c12_native_random_replacement: {} cases checked", n);
+}
